@@ -249,7 +249,7 @@ func checkC06(c *Ctx) {
 
 	// descriptor writer layout (shared with C10)
 	if w := c.Fn("I7.layout", "efi/signature.WriteEFIVariableAuthencation2"); w != nil {
-		all := c.flatten(c.codecTable(w, false), false, 0)
+		all, why := c.wireLeaves(w, false)
 		// the fixed-width positions decide the layout; the variable runs (an emptied
 		// header body, the certificate data) are judged by the C10 rules
 		var wl []leaf
@@ -259,8 +259,8 @@ func checkC06(c *Ctx) {
 			}
 		}
 		want := []string{"Year", "Month", "Day", "Hour", "Minute", "Second", "Pad1", "Nanosecond", "TimeZone", "Daylight", "Pad2", "Length", "Revision", "CertType", "Data1", "Data2", "Data3", "Data4"}
-		if why := c.codecOpaque(w, 0); why != "" {
-			c.R.Infof("I7.layout", name(w), "descriptor-writer", c.Pos(w.Pos()), "not decided for this shape: the writer uses "+why)
+		if why != "" {
+			c.R.Infof("I7.layout", name(w), "descriptor-writer", c.Pos(w.Pos()), "not decided for this shape: the writer's wire sequence cannot be extracted ("+why+")")
 			want = nil
 		}
 		ok, det := len(wl) == len(want) || want == nil, fmt.Sprintf("%d fixed-width wire positions: %s", len(wl), leavesString(wl))
